@@ -23,5 +23,5 @@ def run(run, tier, seed, args):
         "the _clslevel WeakKeyDictionary is modelled as a dict (no entry disappears during the call)",
         "under proof: _ClsLevelDispatch.update_subclass; _CompoundListener._exec_once_impl / exec_once / exec_once_unless_exception in the monitor reading (DESIGN §11.3): shared flag _exec_once and two ghost counters, invariant `ok + final <= 1 and _exec_once == (ok + final == 1)` proved at every release of the exec-once mutex and assumed at every acquisition, counters monotone (rely/guarantee); the dispatch itself (self(*args, **kw)) is an abstract callee that may raise",
         "_CompoundListener.__call__ (every class-level then every instance-level listener once, in sequence order; ghost call log), _ListenerCollection.append / insert / remove and _EventKey.append_to_list / prepend_to_list / remove_from_list are under proof; the registry bookkeeping (_stored_in_collection: nested weak-key dictionaries) is an assumed contract",
-        "_ListenerCollection._update / clear, _JoinedListener, util.only_once (closure) and _exec_w_sync_on_first_run are covered by the bounded complement only; the mutex is whatever _get_exec_once_mutex() returns (its lazy creation under mini_gil is not under proof)",
+        "_JoinedListener, util.only_once (closure) and _exec_w_sync_on_first_run are covered by the bounded complement only; the mutex is whatever _get_exec_once_mutex() returns (its lazy creation under mini_gil is not under proof)",
     ]
